@@ -147,7 +147,9 @@ fn check_cfg(ctx: &Ctx, cfg: &Cfg, dp: usize, stretch_len: usize) -> JobOut {
     let pv = prefix_values();
     let levels = [1.0, 0.1, 0.7, 3.3, 1e6, -1.0, -3.3];
     let mut prefixes: Vec<Vec<u8>> = vec![vec![]];
-    for_each_seq(pv.len(), None, dp, |s| {
+    // one extra symbol (index pv.len()) stands for reset(): the instance may have been re-used, with
+    // activity before AND after the reset
+    for_each_seq(pv.len() + 1, None, dp, |s| {
         prefixes.push(s.to_vec());
         true
     });
@@ -156,9 +158,10 @@ fn check_cfg(ctx: &Ctx, cfg: &Cfg, dp: usize, stretch_len: usize) -> JobOut {
             // flat from the very first input at extreme magnitudes (with an active prefix of ordinary size the
             // squares of the jump overflow f64, which is not a flat-window matter)
             let extreme: Vec<f64> = if pre.is_empty() { vec![1e200, 1e-200, 1e300] } else { vec![] };
-            for (&level, after_reset, cross) in levels.iter().chain(extreme.iter()).flat_map(|l| [(l, false, false), (l, true, false), (l, false, true)]) {
-                // the same stretch after prefix + reset(): the instance is re-used, t and M restart
-                if after_reset && pre.is_empty() {
+            for (&level, via, cross) in levels.iter().chain(extreme.iter()).flat_map(|l| [(l, Via::Plain, false), (l, Via::Serde, false), (l, Via::Clone, false), (l, Via::Plain, true)]) {
+                // via: the instance is serialized + restored / replaced by its clone between prefix and
+                // stretch (short prefixes only)
+                if via != Via::Plain && pre.len() > 1 {
                     continue;
                 }
                 // cross: the active prefix arrives through the OTHER input path of the same instance
@@ -176,19 +179,25 @@ fn check_cfg(ctx: &Ctx, cfg: &Cfg, dp: usize, stretch_len: usize) -> JobOut {
                     return out;
                 }
                 let pst = if !cross { if st == Stretch::Alternating { Stretch::Scalar } else { st } } else if st == Stretch::Scalar { Stretch::OnePriceBar } else if st == Stretch::Alternating { Stretch::OnePriceBar } else { Stretch::Scalar };
-                let mut ops: Vec<Op> = pre.iter().enumerate().map(|(i, &a)| prefix_op(cfg, pv[a as usize], pst, i)).collect();
-                if after_reset {
-                    ops.push(Op::Reset);
-                }
+                let mut ops: Vec<Op> = pre.iter().enumerate().map(|(i, &a)| if a as usize == pv.len() { Op::Reset } else { prefix_op(cfg, pv[a as usize], pst, i) }).collect();
                 let plen = ops.len();
-                let tbase = if after_reset { 0 } else { plen };
-                let mut m = if after_reset { 0.0 } else { ops.iter().map(|o| o.maxmag()).fold(0.0, f64::max) };
+                // t and M restart at the last reset()
+                let tbase = since_reset(&ops).len();
+                let mut m = since_reset(&ops).iter().map(|o| o.maxmag()).fold(0.0, f64::max);
                 out.stats.traces += 1;
                 out.stats.states += 1;
                 let r = std::panic::catch_unwind(std::panic::AssertUnwindSafe(|| {
                     let mut s = make(cfg);
                     for op in &ops {
                         s.apply(op);
+                    }
+                    match via {
+                        Via::Serde => {
+                            let bytes = s.ser().expect("harness: serialize");
+                            s = s.de(&bytes).expect("harness: deserialize");
+                        }
+                        Via::Clone => s = s.dup(),
+                        Via::Plain => {}
                     }
                     let mut res: Vec<Out> = Vec::with_capacity(stretch_len);
                     let mut sops: Vec<Op> = Vec::with_capacity(stretch_len);
@@ -227,7 +236,7 @@ fn check_cfg(ctx: &Ctx, cfg: &Cfg, dp: usize, stretch_len: usize) -> JobOut {
                             Violation::new(PROP, cfg, &ops, &class)
                                 .obs(out2s(&res[j]))
                                 .exp(exp)
-                                .det(format!("{:?} stretch at level {} : step {} of the stretch after a {}-op active prefix{} (window degenerate)", st, level, j + 1, plen, if after_reset { " ending in reset()" } else { "" })),
+                                .det(format!("{:?} stretch at level {} : step {} of the stretch after a {}-op active prefix{} (window degenerate)", st, level, j + 1, plen, match via { Via::Serde => " and a bincode round trip", Via::Clone => " and a clone() that replaced the instance", Via::Plain => "" })),
                         );
                         return out;
                     }
@@ -344,7 +353,7 @@ pub fn run(ctx: &Ctx) -> CheckResult {
     res.extra.insert("configurations".into(), json!(jobs.len()));
     res.rule = "case = (configuration, active prefix, stretch kind, flat level, step of the stretch); the real output at every step whose reference window is degenerate (min(t,w) trailing inputs flat / zero-flow) must be finite, inside the documented range, and equal the documented neutral value where one is defined; non-trivial = non-empty active prefix".into();
     res.bounds = format!(
-        "all 22 indicators, periods 1..8; every active prefix over {{2, 0.3, 1e6, 7.7, 1e9}} up to depth {}, each also followed by reset(), and each also fed through the other input path (bars before a scalar stretch and vice versa) (exponential-memory kinds at periods 1..3: {}), levels {{1, 0.1, 0.7, 3.3, 1e6, -1, -3.3}} (and 1e200, 1e-200, 1e300 for streams flat from the start), stretch kinds scalar / one-price bar / both alternating on one instance / same bar (CCI, MFI) / zero volume (MFI, OBV), every stretch length 1..{} ({} for exponential-memory kinds{}); level sweep for periods 1..3: all two-decimal prices 0.01..20.00 and 2000 log-uniform levels in [1e-3, 1e6]",
+        "all 22 indicators, periods 1..8; every active prefix over {{2, 0.3, 1e6, 7.7, 1e9}} up to depth {}, reset() being one of the prefix symbols, prefixes of length <= 1 also followed by a serde round trip / clone, and each prefix also fed through the other input path (bars before a scalar stretch and vice versa) (exponential-memory kinds at periods 1..3: {}), levels {{1, 0.1, 0.7, 3.3, 1e6, -1, -3.3}} (and 1e200, 1e-200, 1e300 for streams flat from the start), stretch kinds scalar / one-price bar / both alternating on one instance / same bar (CCI, MFI) / zero volume (MFI, OBV), every stretch length 1..{} ({} for exponential-memory kinds{}); level sweep for periods 1..3: all two-decimal prices 0.01..20.00 and 2000 log-uniform levels in [1e-3, 1e6]",
         4,
         3,
         if th { 600 } else { 64 },
